@@ -189,6 +189,8 @@ func runIsoRaceChild(c Case, emit Emitter) {
 		n := int32(len(names))
 		var wg sync.WaitGroup
 		rets := map[string][]string{}
+		vs := map[string]interface{}{}
+		var vmu sync.Mutex // taken after a goroutine's last access to its document: orders nothing the library does
 		for _, d := range names {
 			wg.Add(1)
 			st, prog := docs[d], append(append([]Op{}, progs[d]...), isoFinalOp)
@@ -203,14 +205,16 @@ func runIsoRaceChild(c Case, emit Emitter) {
 				for i, op := range prog {
 					out[i], _ = isoExec(st, op)
 				}
+				// the read accessors and the projection of the document are the caller's last use of it: they run on
+				// the caller's goroutine too, concurrently with whatever the other documents' goroutines are doing
+				v := isoView(st)
+				vmu.Lock()
+				vs[st.name] = v
+				vmu.Unlock()
 			}()
 		}
 		wg.Wait()
 		isoNoSync = false
-		vs := map[string]interface{}{}
-		for _, d := range names {
-			vs[d] = isoView(docs[d])
-		}
 		emit(Ev{"ev": "round", "case": c.ID, "r": r, "views": vs, "rets": rets})
 	}
 }
